@@ -134,7 +134,7 @@ func rtInputs(c *config, stream string, ngen int) []rtInput {
 		retAttrs := []string{"dereferenceable(16)", "dereferenceable_or_null(16)", "noalias", "nonnull", "noundef", "inreg"}
 		paramAttrs := []string{"align 8", "dereferenceable(16)", "dereferenceable_or_null(16)", "byval(i32)", "sret(i32)", "inalloca(i32)", "preallocated(i32)",
 			"byref(i32)", "elementtype(i32)", "noalias", "nocapture", "nonnull", "noundef", "readonly", "\"key\"=\"value\"", "\"flag\"", "\"empty\"=\"\""}
-		funcAttrs := []string{"alignstack(16)", "allocsize(0)", "allocsize(0, 1)", "vscale_range(1, 2)", "uwtable", "nounwind", "\"key\"=\"value\"", "\"flag\"", "\"empty\"=\"\""}
+		funcAttrs := []string{"alignstack(16)", "allocsize(0)", "allocsize(0, 1)", "allocsize(1, 0)", "uwtable(async)", "uwtable(sync)", "vscale_range(1, 2)", "uwtable", "nounwind", "\"key\"=\"value\"", "\"flag\"", "\"empty\"=\"\""}
 		shape := func(ret, par, fn string) string {
 			sp := func(a string) string {
 				if a == "" {
@@ -900,6 +900,23 @@ func c03Module(r *rng, i int) *ir.Module {
 		x.Mod(x, new(big.Int).Lsh(big.NewInt(1), uint(w-1)))
 		m.NewGlobalDef(fmt.Sprintf("wide%d", w), &constant.Int{Typ: types.NewInt(w), X: x})
 	}
+	// constant expressions with their optional flags
+	{
+		i32c := func(v int64) constant.Constant { return constant.NewInt(types.I32, v) }
+		as := constant.NewAShr(i32c(-64), i32c(2))
+		as.Exact = true
+		ls := constant.NewLShr(i32c(64), i32c(2))
+		ls.Exact = r.coin()
+		ad := constant.NewAdd(i32c(1), i32c(2))
+		ad.OverflowFlags = []enum.OverflowFlag{enum.OverflowFlagNUW, enum.OverflowFlagNSW}[:1+r.intn(2)]
+		sh := constant.NewShl(i32c(1), i32c(3))
+		sh.OverflowFlags = []enum.OverflowFlag{enum.OverflowFlagNSW}
+		ge := constant.NewGetElementPtr(types.I64, g1, i32c(0))
+		ge.InBounds = true
+		for k, ce := range []constant.Constant{as, ls, ad, sh, ge} {
+			m.NewGlobalDef(fmt.Sprintf("ce%d", k), ce)
+		}
+	}
 	// floating-point constants the printer writes in decimal (a digit or two times a power of ten) and in hexadecimal
 	for k, v := range []float64{1e6, 2e9, 25e5, 1.5e7, 1e21, 0.1, 3, 1e-3 * float64(1+r.intn(9))} {
 		m.NewGlobalDef(fmt.Sprintf("fd%d", k), constant.NewFloat(types.Double, v))
@@ -981,6 +998,14 @@ func c03Check(c *config, m *ir.Module, det map[string]interface{}, class string,
 	if diff := firstDumpDiff(v1, v2); diff != "equal" {
 		det["first_difference"] = diff
 		o.Fail("construct_print_parse", class, "an integer constant of the constructed module is read back as another value", det)
+		return
+	}
+	// ... every flag and predicate of instructions and constant expressions the same (exact, inbounds, nuw/nsw, fast-math
+	// flags, orderings, predicates, volatile, tail): the text may print them or leave defaults out, the module
+	// read back holds what was constructed
+	if diff := firstDumpDiff(flagValues(m), flagValues(m2)); diff != "equal" {
+		det["first_difference"] = diff
+		o.Fail("construct_print_parse", class, "a flag of the constructed module is read back differently", det)
 		return
 	}
 	// ... and every floating-point constant the same number
@@ -1153,6 +1178,19 @@ func floatValues(m *ir.Module) []string {
 	for _, l := range shapeDump(m) {
 		if i := strings.Index(l, ".X = "); i >= 0 && strings.ContainsAny(l[i+5:], ".eEIN") {
 			out = append(out, l[i+5:])
+		}
+	}
+	return out
+}
+
+var reFlagLine = regexp.MustCompile(`\.(Exact|InBounds|Volatile|Weak|Tail|Ordering|SuccessOrdering|FailureOrdering|Op|Pred|Immutable|ExternallyInitialized|SyncScope)( = .*)$|\.(FastMathFlags|OverflowFlags)((\[[0-9]+\] = | len ).*)$`)
+
+// flagValues lists, in traversal order, the flag-like scalar fields of the module (field name and value)
+func flagValues(m *ir.Module) []string {
+	var out []string
+	for _, l := range shapeDump(m) {
+		if sm := reFlagLine.FindStringSubmatch(l); sm != nil {
+			out = append(out, sm[1]+sm[2]+sm[3]+sm[4])
 		}
 	}
 	return out
